@@ -605,3 +605,247 @@ Print Assumptions C05_mask_ts_skew.
 Print Assumptions C05_mask_ts_kurt.
 Print Assumptions C05_mask_ts_ewm.
 Print Assumptions C05_mask_ts_wma.
+
+(* ---- (7) X28: the extrema / arg-extrema / rank family at EVERY ordered carrier, incl. binary64 -----------------
+   The masks (4f) above are at the integer carrier.  Spec/ExtremaOrd.v states the order laws `OrdLaws A` (a strict weak
+   order on the non-NaN elements of the carrier; hypotheses, proved for Z, option R and Coq's primitive binary64 `float`
+   in Proofs/CmpOrdInst.v / CmpOrdFloat.v) and Props/C03.v has the closed forms for every such carrier.  Below: the
+   null mask, "one output per input / no panic" as corollaries of those closed forms (Proofs/MaskOrd.v), for every null
+   dictionary `IsNone T A`, every series whose valid elements are not NaN (`valid_not_nan`: automatic when NaN IS the
+   null; for Option<f64> it excludes Some(NaN), DESIGN 5.4), every window >= 1, min_periods, position, both bodies.
+   `gvalid W` = the non-null elements of the window.  For ts_vmin / ts_vmax a non-null output is moreover never NaN
+   (so for an f64 result "the output is NaN" is exactly the mask).  The DESIGN 5.3 form of the threshold follows by
+   rewriting with C05_cmp_effective_min_periods_stable, which is carrier-independent.                            *)
+From Tevec Require Import Spec.ExtremaOrd Proofs.CmpOrd Base.F64 Proofs.MaskOrd.
+From Coq Require Import PrimFloat.
+
+Theorem C05_mask_ts_vmin_ordered :
+  forall (A : Type) (NA : Num A), OrdLaws A ->
+  forall (T : Type) (DT : IsNone T A) (body : bool) (w : nat) (mp : option nat) (xs : list T),
+    valid_not_nan xs -> 1 <= w -> 1 <= length xs ->
+    exists out, ts_vmin body w mp xs = Done out /\ length out = length xs /\
+      forall i, i < length xs ->
+        exists o, nth_error out i = Some o /\
+          onull o = orb (length (gvalid (win w i (map to_opt xs))) <? cmp_mp mp (cmp_window w xs))
+                        (length (gvalid (win w i (map to_opt xs))) <? 1) /\
+          (forall x, o = Some x -> nisnan x = false).
+Proof. intros A NA OL T DT. exact (mask_vmin_ord OL). Qed.
+
+Theorem C05_mask_ts_vmax_ordered :
+  forall (A : Type) (NA : Num A), OrdLaws A ->
+  forall (T : Type) (DT : IsNone T A) (body : bool) (w : nat) (mp : option nat) (xs : list T),
+    valid_not_nan xs -> 1 <= w -> 1 <= length xs ->
+    exists out, ts_vmax body w mp xs = Done out /\ length out = length xs /\
+      forall i, i < length xs ->
+        exists o, nth_error out i = Some o /\
+          onull o = orb (length (gvalid (win w i (map to_opt xs))) <? cmp_mp mp (cmp_window w xs))
+                        (length (gvalid (win w i (map to_opt xs))) <? 1) /\
+          (forall x, o = Some x -> nisnan x = false).
+Proof. intros A NA OL T DT. exact (mask_vmax_ord OL). Qed.
+
+Theorem C05_mask_ts_vargmin_ordered :
+  forall (A : Type) (NA : Num A), OrdLaws A ->
+  forall (T : Type) (DT : IsNone T A) (body : bool) (w : nat) (mp : option nat) (xs : list T),
+    valid_not_nan xs -> 1 <= w -> 1 <= length xs ->
+    exists out, ts_vargmin body w mp xs = Done out /\ length out = length xs /\
+      forall i, i < length xs ->
+        exists o, nth_error out i = Some o /\
+          onull o = orb (length (gvalid (win w i (map to_opt xs))) <? cmp_mp mp (cmp_window w xs))
+                        (length (gvalid (win w i (map to_opt xs))) <? 1).
+Proof. intros A NA OL T DT. exact (mask_vargmin_ord OL). Qed.
+
+Theorem C05_mask_ts_vargmax_ordered :
+  forall (A : Type) (NA : Num A), OrdLaws A ->
+  forall (T : Type) (DT : IsNone T A) (body : bool) (w : nat) (mp : option nat) (xs : list T),
+    valid_not_nan xs -> 1 <= w -> 1 <= length xs ->
+    exists out, ts_vargmax body w mp xs = Done out /\ length out = length xs /\
+      forall i, i < length xs ->
+        exists o, nth_error out i = Some o /\
+          onull o = orb (length (gvalid (win w i (map to_opt xs))) <? cmp_mp mp (cmp_window w xs))
+                        (length (gvalid (win w i (map to_opt xs))) <? 1).
+Proof. intros A NA OL T DT. exact (mask_vargmax_ord OL). Qed.
+
+(* rolling rank, comparisons of the carrier A, rank arithmetic in option R *)
+Theorem C05_mask_ts_vrank_ordered :
+  forall (A : Type) (NA : Num A), OrdLaws A ->
+  forall (T : Type) (DT : IsNone T A) (body : bool) (w : nat) (mp : option nat) (pct rev : bool) (xs : list T),
+    valid_not_nan xs -> 1 <= w -> 1 <= length xs ->
+    exists out, ts_vrank (B := XR) body w mp pct rev xs = Done out /\ length out = length xs /\
+      forall i, i < length xs ->
+        exists o, nth_error out i = Some o /\
+          is_null o = orb (null_at (map to_opt xs) i)
+                          (length (gvalid (win w i (map to_opt xs))) <? cmp_mp mp (cmp_window w xs)).
+Proof. intros A NA OL T DT. exact (mask_vrank_ord OL). Qed.
+
+(* every series (the empty one included), every window >= 1 (window > len included), both bodies: a fully written
+   output of the input length, no panic *)
+Theorem C05_extrema_one_output_per_input_ordered :
+  forall (A : Type) (NA : Num A), OrdLaws A ->
+  forall (T : Type) (DT : IsNone T A) (body : bool) (w : nat) (mp : option nat) (xs : list T),
+    valid_not_nan xs -> 1 <= w ->
+    (exists out, ts_vmin body w mp xs = Done out /\ length out = length xs) /\
+    (exists out, ts_vmax body w mp xs = Done out /\ length out = length xs) /\
+    (exists out, ts_vargmin body w mp xs = Done out /\ length out = length xs) /\
+    (exists out, ts_vargmax body w mp xs = Done out /\ length out = length xs).
+Proof. intros A NA OL T DT. exact (extrema_total_ord OL). Qed.
+
+(* ts_vrank needs NO law and NO premise on the series for this, and holds for every OUTPUT carrier B too (in
+   particular input and output binary64): its counter is the valid count of the window, a fact about `not_none` alone.
+   This closes "ts_vrank length / no-panic is proved with the output arithmetic in XR only". *)
+Theorem C05_rank_one_output_per_input_any_carrier :
+  forall (A : Type) (NA : Num A) (T : Type) (DT : IsNone T A) (B : Type) (NB : Num B)
+         (body : bool) (w : nat) (mp : option nat) (pct rev : bool) (xs : list T),
+    1 <= w -> exists out, ts_vrank (B := B) body w mp pct rev xs = Done out /\ length out = length xs.
+Proof. intros A NA T DT B NB. exact rank_total_any. Qed.
+
+(* binary64, f64 series with NaN as the null: no premise on the series *)
+Theorem C05_mask_ts_vmin_binary64 :
+  forall (body : bool) (w : nat) (mp : option nat) (xs : list float),
+    1 <= w -> 1 <= length xs ->
+    exists out, ts_vmin (DT := IsNoneF64) body w mp xs = Done out /\ length out = length xs /\
+      forall i, i < length xs ->
+        exists o, nth_error out i = Some o /\
+          onull o = orb (length (gvalid (win w i (map to_opt xs))) <? cmp_mp mp (cmp_window w xs))
+                        (length (gvalid (win w i (map to_opt xs))) <? 1) /\
+          (forall x, o = Some x -> nisnan x = false).
+Proof. exact mask_vmin_f64. Qed.
+
+Theorem C05_mask_ts_vmax_binary64 :
+  forall (body : bool) (w : nat) (mp : option nat) (xs : list float),
+    1 <= w -> 1 <= length xs ->
+    exists out, ts_vmax (DT := IsNoneF64) body w mp xs = Done out /\ length out = length xs /\
+      forall i, i < length xs ->
+        exists o, nth_error out i = Some o /\
+          onull o = orb (length (gvalid (win w i (map to_opt xs))) <? cmp_mp mp (cmp_window w xs))
+                        (length (gvalid (win w i (map to_opt xs))) <? 1) /\
+          (forall x, o = Some x -> nisnan x = false).
+Proof. exact mask_vmax_f64. Qed.
+
+Theorem C05_mask_ts_vargmin_binary64 :
+  forall (body : bool) (w : nat) (mp : option nat) (xs : list float),
+    1 <= w -> 1 <= length xs ->
+    exists out, ts_vargmin (DT := IsNoneF64) body w mp xs = Done out /\ length out = length xs /\
+      forall i, i < length xs ->
+        exists o, nth_error out i = Some o /\
+          onull o = orb (length (gvalid (win w i (map to_opt xs))) <? cmp_mp mp (cmp_window w xs))
+                        (length (gvalid (win w i (map to_opt xs))) <? 1).
+Proof. exact mask_vargmin_f64. Qed.
+
+Theorem C05_mask_ts_vargmax_binary64 :
+  forall (body : bool) (w : nat) (mp : option nat) (xs : list float),
+    1 <= w -> 1 <= length xs ->
+    exists out, ts_vargmax (DT := IsNoneF64) body w mp xs = Done out /\ length out = length xs /\
+      forall i, i < length xs ->
+        exists o, nth_error out i = Some o /\
+          onull o = orb (length (gvalid (win w i (map to_opt xs))) <? cmp_mp mp (cmp_window w xs))
+                        (length (gvalid (win w i (map to_opt xs))) <? 1).
+Proof. exact mask_vargmax_f64. Qed.
+
+Theorem C05_mask_ts_vrank_binary64_input :
+  forall (body : bool) (w : nat) (mp : option nat) (pct rev : bool) (xs : list float),
+    1 <= w -> 1 <= length xs ->
+    exists out, ts_vrank (DT := IsNoneF64) (B := XR) body w mp pct rev xs = Done out /\ length out = length xs /\
+      forall i, i < length xs ->
+        exists o, nth_error out i = Some o /\
+          is_null o = orb (null_at (map to_opt xs) i)
+                          (length (gvalid (win w i (map to_opt xs))) <? cmp_mp mp (cmp_window w xs)).
+Proof. exact mask_vrank_f64_input. Qed.
+
+Theorem C05_extrema_one_output_per_input_binary64 :
+  forall (body : bool) (w : nat) (mp : option nat) (xs : list float), 1 <= w ->
+    (exists out, ts_vmin (DT := IsNoneF64) body w mp xs = Done out /\ length out = length xs) /\
+    (exists out, ts_vmax (DT := IsNoneF64) body w mp xs = Done out /\ length out = length xs) /\
+    (exists out, ts_vargmin (DT := IsNoneF64) body w mp xs = Done out /\ length out = length xs) /\
+    (exists out, ts_vargmax (DT := IsNoneF64) body w mp xs = Done out /\ length out = length xs).
+Proof. exact extrema_total_f64. Qed.
+
+(* binary64, Option<f64> series (only `None` is null) under the premise of DESIGN 5.4: no element is Some(NaN) *)
+Theorem C05_mask_cmp_family_option_binary64 :
+  forall (body : bool) (w : nat) (mp : option nat) (xs : list (option float)),
+    valid_not_nan (DT := IsNoneOptF64) xs -> 1 <= w -> 1 <= length xs ->
+    (exists out, ts_vmin (DT := IsNoneOptF64) body w mp xs = Done out /\ length out = length xs /\
+       forall i, i < length xs ->
+         exists o, nth_error out i = Some o /\
+           onull o = orb (length (gvalid (win w i (map to_opt xs))) <? cmp_mp mp (cmp_window w xs))
+                         (length (gvalid (win w i (map to_opt xs))) <? 1) /\
+           (forall x, o = Some x -> nisnan x = false)) /\
+    (exists out, ts_vmax (DT := IsNoneOptF64) body w mp xs = Done out /\ length out = length xs /\
+       forall i, i < length xs ->
+         exists o, nth_error out i = Some o /\
+           onull o = orb (length (gvalid (win w i (map to_opt xs))) <? cmp_mp mp (cmp_window w xs))
+                         (length (gvalid (win w i (map to_opt xs))) <? 1) /\
+           (forall x, o = Some x -> nisnan x = false)) /\
+    (exists out, ts_vargmin (DT := IsNoneOptF64) body w mp xs = Done out /\ length out = length xs /\
+       forall i, i < length xs ->
+         exists o, nth_error out i = Some o /\
+           onull o = orb (length (gvalid (win w i (map to_opt xs))) <? cmp_mp mp (cmp_window w xs))
+                         (length (gvalid (win w i (map to_opt xs))) <? 1)) /\
+    (exists out, ts_vargmax (DT := IsNoneOptF64) body w mp xs = Done out /\ length out = length xs /\
+       forall i, i < length xs ->
+         exists o, nth_error out i = Some o /\
+           onull o = orb (length (gvalid (win w i (map to_opt xs))) <? cmp_mp mp (cmp_window w xs))
+                         (length (gvalid (win w i (map to_opt xs))) <? 1)) /\
+    (forall pct rev,
+     exists out, ts_vrank (DT := IsNoneOptF64) (B := XR) body w mp pct rev xs = Done out /\ length out = length xs /\
+       forall i, i < length xs ->
+         exists o, nth_error out i = Some o /\
+           is_null o = orb (null_at (map to_opt xs) i)
+                           (length (gvalid (win w i (map to_opt xs))) <? cmp_mp mp (cmp_window w xs))).
+Proof. exact mask_cmp_optf64. Qed.
+
+Theorem C05_extrema_one_output_per_input_option_binary64 :
+  forall (body : bool) (w : nat) (mp : option nat) (xs : list (option float)),
+    valid_not_nan (DT := IsNoneOptF64) xs -> 1 <= w ->
+    (exists out, ts_vmin (DT := IsNoneOptF64) body w mp xs = Done out /\ length out = length xs) /\
+    (exists out, ts_vmax (DT := IsNoneOptF64) body w mp xs = Done out /\ length out = length xs) /\
+    (exists out, ts_vargmin (DT := IsNoneOptF64) body w mp xs = Done out /\ length out = length xs) /\
+    (exists out, ts_vargmax (DT := IsNoneOptF64) body w mp xs = Done out /\ length out = length xs).
+Proof. exact extrema_total_optf64. Qed.
+
+(* the premise cannot be dropped: on Some(NaN) elements the model of ts_vargmin does not return at all (cf.
+   C03_some_nan_is_outside_the_property), so there is no output to have a length or a mask *)
+Theorem C05_some_nan_is_outside_the_property :
+  ~ (exists out, ts_vargmin (DT := IsNoneOptF64) true 2 (Some 0) [Some nan; Some nan; Some nan] = Done out) /\
+  ~ valid_not_nan (DT := IsNoneOptF64) [Some nan; Some nan; Some nan].
+Proof. exact optf64_some_nan_no_output. Qed.
+
+(* non-vacuity.  Premise `OrdLaws A`: C03_order_laws_Z / _real / _binary64 (here: binary64).  Premise `valid_not_nan`
+   on an Option<f64> series; the f64 masks evaluated: the mask takes both values, +0 / -0 tie, expiring extreme *)
+Example C05_example_ordered_premises_binary64 :
+  OrdLaws float /\
+  valid_not_nan (DT := IsNoneOptF64) [Some 1%float; None; Some 3%float] /\ 1 <= 2 /\
+  1 <= length [Some 1%float; None; Some 3%float].
+Proof.
+  split; [exact Proofs.CmpOrdFloat.ordlaws_F64|]. split; [|split; repeat constructor].
+  intros v [<-|[<-|[<-|[]]]] H; try discriminate; reflexivity.
+Qed.
+Example C05_example_mask_binary64_both_values :
+  let xs := [nan; 1%float; nan; nan; (-0)%float; 0%float] in
+  1 <= 2 /\ 1 <= length xs /\
+  ts_vmin (DT := IsNoneF64) true 2 (Some 1) xs = Done [None; Some 1%float; Some 1%float; None; Some (-0)%float; Some 0%float] /\
+  map (fun i => orb (length (gvalid (win 2 i (map (to_opt (H := IsNoneF64)) xs))) <? 1)
+                    (length (gvalid (win 2 i (map (to_opt (H := IsNoneF64)) xs))) <? 1)) (seq 0 6)
+  = [true; false; false; true; false; false].
+Proof. intros xs. split; [repeat constructor|]. split; [repeat constructor|]. split; vm_compute; reflexivity. Qed.
+Example C05_example_mask_option_binary64 :
+  ts_vargmax (DT := IsNoneOptF64) false 2 None [None; Some 2%float; None; None] = Done [None; Some 2; Some 1; None] /\
+  ts_vrank (DT := IsNoneOptF64) (B := float) false 2 (Some 2) false false [Some 2%float; Some 1%float; None]
+  = Done [nan; 1%float; nan].
+Proof. split; vm_compute; reflexivity. Qed.
+
+Print Assumptions C05_mask_ts_vmin_ordered.
+Print Assumptions C05_mask_ts_vmax_ordered.
+Print Assumptions C05_mask_ts_vargmin_ordered.
+Print Assumptions C05_mask_ts_vargmax_ordered.
+Print Assumptions C05_mask_ts_vrank_ordered.
+Print Assumptions C05_extrema_one_output_per_input_ordered.
+Print Assumptions C05_rank_one_output_per_input_any_carrier.
+Print Assumptions C05_mask_ts_vmin_binary64.
+Print Assumptions C05_mask_ts_vmax_binary64.
+Print Assumptions C05_mask_ts_vargmin_binary64.
+Print Assumptions C05_mask_ts_vargmax_binary64.
+Print Assumptions C05_mask_ts_vrank_binary64_input.
+Print Assumptions C05_extrema_one_output_per_input_binary64.
+Print Assumptions C05_mask_cmp_family_option_binary64.
+Print Assumptions C05_extrema_one_output_per_input_option_binary64.
+Print Assumptions C05_some_nan_is_outside_the_property.
